@@ -25,7 +25,7 @@ ASSUMPTIONS = [
     "the ListIdentity item layout is EtherNet/IP Vol 2 2-4.2 (socket address in network byte order)",
 ]
 FLOORS = {"quick": {"list_identity": 1500, "discover": 500, "plc_info": 400, "module_info": 400, "known-vendor-ids": 1000},
-          "thorough": {"list_identity": 50000, "discover": 20000, "plc_info": 5000, "module_info": 5000}}
+          "thorough": {"list_identity": 30000, "discover": 15000, "plc_info": 4000, "module_info": 4000}}
 
 
 _TABLES = []
